@@ -7,25 +7,9 @@
    at most W PUBLISH packets (c16_resume_fits). *)
 From Coq Require Import List NArith Bool Lia ZArith ZifyN ZifyNat ZifyBool.
 From GM Require Import Base.Lts Codec.Packet Session.Ids Session.Store Session.StoreProofs
-  Broker.Conn Broker.ConnSpec Broker.ConnBase Broker.ConnProofsC0 Broker.ConnProofsC1 Broker.ConnProofsCTraces.
+  Broker.Conn Broker.ConnSpec Broker.ConnBase Broker.ConnProofsCDefs Broker.ConnProofsC0 Broker.ConnProofsC1 Broker.ConnProofsCTraces.
 Import ListNotations.
 Open Scope N_scope.
-
-(* ----------------------------------------------- the hypothesis, as a scanner *)
-
-Definition is_publish (p : packet) : bool := match p with Publish _ _ _ => true | _ => false end.
-Definition npub (ps : list packet) : nat := length (filter is_publish ps).
-
-(* at every resume (the processor's listing of the outgoing store after CONNACK) the
-   store holds at most W PUBLISH packets, W the window the connection was set up with *)
-Definition rf_step (w : N) (e : event) : option N :=
-  match e with
-  | ENewConn => Some 0
-  | ESetup _ (SOk _ _ w' _ _) => Some w'
-  | EAll _ Outgoing (Some ps) => if N.of_nat (npub ps) <=? w then Some w else None
-  | _ => Some w
-  end.
-Definition c16_resume_fits (es : list event) : bool := scan rf_step 0 es.
 
 (* a clause under a trace hypothesis *)
 Section Scan2.
@@ -54,8 +38,6 @@ End Scan2.
 
 (* ------------------------------------------------------------ the relation *)
 
-Definition held (d : dpc) : N := if deq_busy d then 1 else 0.
-Definition credit (p : ppc) : N := match p with PAckDel _ => 1 | _ => 0 end.
 Definition pre_setup (p : ppc) : bool :=
   match p with PFirst | PAuth _ | PDeny | PSetup _ => true | _ => false end.
 
